@@ -206,6 +206,11 @@ def cos_pi_rational(q):
     # express through the primitive atom c = cos(pi/d) (d = denominator) with a Chebyshev polynomial, so that
     # all multiples share one algebraic atom
     d = q.denominator
+    # one common base atom cos(pi/D) per path when the harness declares it (keeps the atoms algebraically independent)
+    D = cx.meta.get('pi_base')
+    if D and (q * D).denominator == 1:
+        q = Fraction((q * D).numerator, D)
+        d = D
     base_key = ('cospi-base', d)
     if base_key not in cx.atomkey:
         x = sympy.Symbol('x')
@@ -224,13 +229,19 @@ def cos_pi_rational(q):
         cx.atomkey[base_key] = slot
     c = F(cx.K(cx.gens[cx.atomkey[base_key]]))
     # cos(k * pi/d) = T_k(c)
-    k = q.numerator
+    k = int(q * d)
     t0, t1 = F.const(1), c
     if k == 0:
         return t0
     for _ in range(k - 1):
         t0, t1 = t1, 2 * c * t1 - t0
     return t1
+
+
+def set_pi_base(D):
+    """declare that all rational multiples of pi on this path are multiples of pi/D"""
+    if Ctx.cur is not None:
+        Ctx.cur.meta['pi_base'] = D
 
 
 def sin_pi_rational(q):
@@ -376,6 +387,8 @@ class ArcCos(_Scalar0d):
 
     def cos(self): return self.u
 
+    def sin(self): return (1 - self.u * self.u).sqrt()
+
     def sym_eq(self, other):
         if isinstance(other, ArcCos):
             d = self.u - other.u
@@ -435,6 +448,25 @@ def _arcsin(u):
 
 
 F.arcsin = _arcsin
+
+
+class ArcTan(_Scalar0d):
+    """arctan(w) in (-pi/2, pi/2), carried by its tangent"""
+    def __init__(self, w):
+        self.w = w
+
+    def cos(self):
+        return 1 / (1 + self.w * self.w).sqrt()
+
+    def sin(self):
+        return self.w / (1 + self.w * self.w).sqrt()
+
+    def evalf_with(self, ev):
+        import math
+        return math.atan(float(ev.f(self.w)))
+
+
+F.arctan = lambda u: ArcTan(u)
 
 
 def _f_cos(x):
